@@ -2,6 +2,11 @@
    ExtrOcamlBasic only: bool, option, unit, list, prod, sumbool, sumor map to OCaml's own types;
    no Extract Constant; N / positive / nat / Z stay the extracted inductives. *)
 From Coq Require Import ExtrOcamlBasic.
-From HW Require Import Word Dispatch History Spec.
+From HW Require Import Word Mem X86 Dispatch History Spec.
 Extraction Language OCaml.
-Extraction "../ocaml/model.ml" run prof_dev prof_release HH.
+Extraction "../ocaml/model.ml" run prof_dev prof_release HH to_le_bytes
+  mm_add_epi64 mm_mul_epu32 mm_andnot_si128 mm_srli_epi64 mm_shuffle_epi32 mm_shuffle_epi8 mm_insert_epi32_3 mm_slli_si128_8
+  mm_sll_epi32 mm_srl_epi32 mm_cmpgt_epi32 mm_set1_epi32 mm_cvtsi64_si128 mm_maskload_epi32
+  mm256_add_epi64 mm256_mul_epu32 mm256_andnot_si256 mm256_shuffle_epi8 mm256_shuffle_epi32 mm256_permutevar8x32_epi32
+  mm256_sllv_epi32 mm256_srlv_epi32 mm256_sub_epi32 mm256_unpacklo_epi64 mm256_cmpeq_epi64 mm256_srli_epi64 mm256_slli_epi64
+  mm256_slli_si256_8 mm256_broadcastd_epi32.
